@@ -29,7 +29,7 @@ class InjectedAttributeError(AttributeError):
     pass
 
 
-KEY_FLAVOURS = ("none", "def", "asyncdef", "nonekey", "alleq")
+KEY_FLAVOURS = ("none", "def", "asyncdef", "nonekey", "alleq", "aw")
 
 
 class EqItem(Item):
